@@ -36,6 +36,8 @@ CREATED = {
     '/usr/share/lib/zoneinfo/c18z/d': -6 * 3600 - 540,
     '/usr/share/zoneinfo/c18z/e': -8 * 3600 - 600, '/share/zoneinfo/c18z/e': -8 * 3600 - 660,
     '/share/zoneinfo/c18z/j': None, '/etc/zoneinfo/c18z/j': 9 * 3600 + 720,
+    # file names with a comma (a comma does not make a TZ value a POSIX rule when the file exists)
+    '/tmp/c18z/k,1': 5 * 3600 + 780, '/usr/share/zoneinfo/c18z/l,m': -2 * 3600 - 840,
 }
 # POSIX rules (trimmed text -> offset east of UTC)
 RULES = {
@@ -44,7 +46,7 @@ RULES = {
 }
 STEP = ('/tmp/c18z/step', [4380, 2000, 1, 0, 11640])   # +01:13 before 2000-01-01T00:00:00Z, +03:14 after
 VALUES_FILE = ['/tmp/c18z/step', ':/tmp/c18z/step', '/tmp/c18z/p3', ':/tmp/c18z/m7', '/tmp/c18z/p11', 'c18z/a', ':c18z/a', 'c18z/b', 'c18z/c', ':c18z/d',
-               'c18z/e', 'c18z/../c18z/d', '/tmp/c18z/../c18z/p3']
+               'c18z/e', 'c18z/../c18z/d', '/tmp/c18z/../c18z/p3', '/tmp/c18z/k,1', ':/tmp/c18z/k,1', 'c18z/l,m']
 VALUES_SYS = ['Etc/GMT+5', ':Etc/GMT-3', 'Asia/Tokyo', 'Asia/Kolkata', 'EST', 'UTC', 'Etc/../Etc/GMT+9', '/etc/localtime',
               '/usr/share/zoneinfo/Etc/GMT-14', ':/usr/share/zoneinfo/Asia/Dubai']
 VALUES_RULE = list(RULES)
